@@ -24,7 +24,43 @@ const MONTHS: [&str; 12] = [
 ];
 const DAYS: [&str; 7] = ["Ahad", "Ithnain", "Thulatha", "Arbiaa", "Khamees", "Jumaah", "Sabt"];
 
+// progress watchdog: `convert` publishes the date it is working on; a monitor thread reports a conversion that does not
+// return within 20 s as a `hang` (written to <out>.hang - the trace writer belongs to the stuck thread) and ends the process
+static CURRENT_RD: std::sync::atomic::AtomicI64 = std::sync::atomic::AtomicI64::new(0);
+static TICK: std::sync::atomic::AtomicU64 = std::sync::atomic::AtomicU64::new(0);
+
+fn start_watchdog(out: String) {
+    use std::sync::atomic::Ordering::SeqCst;
+    std::thread::spawn(move || {
+        let (mut last, mut since) = (TICK.load(SeqCst), std::time::Instant::now());
+        loop {
+            std::thread::sleep(std::time::Duration::from_millis(500));
+            let t = TICK.load(SeqCst);
+            if t != last {
+                last = t;
+                since = std::time::Instant::now();
+            } else if t > 0 && t % 2 == 1 && since.elapsed().as_secs() >= 20 {
+                let rd = CURRENT_RD.load(SeqCst);
+                let d = NaiveDate::from_num_days_from_ce_opt(rd as i32).unwrap();
+                let e = json!({"ev": "hij", "out": "hang", "rd": rd, "gy": d.year(), "gm": d.month(), "gd": d.day()});
+                let _ = std::fs::write(format!("{}.hang", out), e.to_string());
+                println!("{}", json!({"events": 0, "dates": 0, "panics": 0, "hang": e}));
+                std::process::exit(0);
+            }
+        }
+    });
+}
+
 fn convert(date: NaiveDate) -> Result<(H, bool), String> {
+    use std::sync::atomic::Ordering::SeqCst;
+    CURRENT_RD.store(date.num_days_from_ce() as i64, SeqCst);
+    TICK.fetch_add(1, SeqCst); // odd = inside a conversion
+    let r = convert_inner(date);
+    TICK.fetch_add(1, SeqCst); // even = outside
+    r
+}
+
+fn convert_inner(date: NaiveDate) -> Result<(H, bool), String> {
     catch_unwind(AssertUnwindSafe(|| {
         let h = HijriDate::from(date);
         let txt = format!("{}", h);
@@ -49,6 +85,8 @@ fn convert(date: NaiveDate) -> Result<(H, bool), String> {
 }
 
 pub fn gen(args: &Args) {
+    let _ = std::fs::remove_file(format!("{}.hang", args.str("out", "c17.ndjson")));
+    start_watchdog(args.str("out", "c17.ndjson"));
     let mut w = TraceWriter::create(&args.str("out", "c17.ndjson"));
     let first = args.str("from", "0001-01-01").parse::<NaiveDate>().unwrap();
     let last = args.str("to", "9999-12-31").parse::<NaiveDate>().unwrap();
